@@ -19,13 +19,81 @@ correspondence-only: that the lifted table covers every path of the real code (t
 functions intra-procedurally), and pandas' reindexing semantics themselves (op `cont.place` vs real pandas).
 
 Helper lemmas: `Lemmas/Perm.lean`, `Lemmas/PermAggregate.lean`, `Lemmas/PermRename.lean`,
-`Lemmas/PermMoments.lean`; definitions: `Model/Perm.lean`.
+`Lemmas/PermMoments.lean`, `Lemmas/Container.lean`, `Lemmas/C12Review.lean`; definitions: `Model/Perm.lean`,
+`Model/Container.lean`.
+
+CLAUSE → THEOREM TABLE (review R3; clause text from properties.jsonl)
+
+A. "MetricFrame, the fairness metrics, the constraint moments, ExponentiatedGradient, GridSearch and ThresholdOptimizer
+   give identical results whether y, predictions, sample parameters and sensitive/control features arrive as lists,
+   numpy arrays, pandas Series or single-column DataFrames (or dicts of arrays for features), and whatever index labels
+   the pandas objects carry - rows are always paired by position, never by label."
+   A1 container MODEL (`Cont.run`: per argument kind × labels × payload → conversion → label-aligning placement):
+      every argument through a label-dropping conversion ⇒ the result is a function of the payloads only, for all kinds
+      and all labels                         | containers_irrelevant, containers_irrelevant_guarded (conversions and
+                                               arguments of equal number; `placeAll_truncates` = what the unguarded one
+                                               silently allows), positional_pairing, conv_drops_labels      | FULL (model)
+   A2 which conversion each argument of each entry point passes through
+                                             | lifted_sites_drop_labels (`decide` over the table generated from the source
+                                               on every run), lifted_sites_nonempty, raw_site_is_flagged (a `raw` row makes
+                                               that `decide` false), lifted_sites_cover, lifted_entry_irrelevant (table +
+                                               A1 composed: any arguments list of lifted sites ⇒ labels and kinds
+                                               irrelevant), validate_fresh, fresh_align_is_positional       | FULL for the
+                                               40 lifted (entry, argument, sink) rows
+   A3 necessity: what a raw Series does       | raw_series_is_label_sensitive, raw_place_dup_raises, raw_place_wf
+                                               (NaN exactly at positions without a label; the labelled value otherwise),
+                                               place_length_artefact (totalisation of the model outside well-formed
+                                               Series)                                                      | FULL (model;
+                                               the five witness placements replayed on pandas 3.0.6 by the review)
+   A4 that the lifted rows are ALL the paths on which an argument reaches a label-aligning operation, and pandas'
+      reindexing itself                       | —                                                           | CORRESPONDENCE-
+                                               ONLY (streams mf, fm, mom, cont of harness/props/c12.py; `cont.place` now
+                                               also with conversion `raw` against a real pandas column assignment)
+   A5 ExponentiatedGradient, GridSearch, ThresholdOptimizer (fit, predict, `_pmf_predict`)
+                                             | only through the rows of `_validate_and_reformat_input`, the moments'
+                                               `load_data` / `gamma`, `_reformat_data_into_dict`,
+                                               `InterpolatedThresholder._pmf_predict`                        | CORRESPONDENCE-
+                                               ONLY (streams eg, gs, redcf, to: every variant against the list run of the
+                                               same call and a Fraction oracle on the positional zip).  NOT in the lifted
+                                               table (lifter gaps): the bodies of `ExponentiatedGradient.fit/_pmf_predict`
+                                               (the F16b site), `GridSearch.fit/predict`, `ThresholdOptimizer.fit/predict`,
+                                               and the sinks `Moment.load_data: tags[_GROUP_ID] = sensitive_features`,
+                                               `UtilityParity.load_data: tags[_EVENT] = event` themselves (the table
+                                               records what the subclasses pass to `super().load_data`).
+B. "Jointly permuting all rows leaves metric results unchanged"
+   B1 MetricFrame.by_group / overall          | byGroup_perm, overall_perm (hypothesis `PermInv f`: pool_permInv proves it
+                                               for all 17 pool metrics — every metric the check's `mf` stream uses —,
+                                               byGroup_pool_perm), byGroup_index_perm / levels_perm / slice_perm (no
+                                               hypothesis), wf_perm (both sides are inside the modelled domain)   | FULL
+   B2 group_min / group_max / difference / ratio | ofFrame_perm, aggregate_perm                                 | FULL
+   B3 the six named fairness metrics          | fairness_perm, dpDifference_perm, eoddsDifference_perm              | FULL
+   B4 moments (beyond the clause)             | moment_index_perm, moment_gamma_perm, moment_signedWeights_perm,
+                                               errorRate_gamma_perm, bgl_gamma_perm                                | FULL
+   B5 ThresholdOptimizer                      | —                                           | CORRESPONDENCE-ONLY (to/perm);
+                                               EG / GridSearch: no permutation stream (GridSearch drops the last-SEEN group)
+C. "renaming group labels by a bijection only renames the corresponding index entries"
+   C1 by_group / overall                      | rename_equivariant (`List.Perm` = same MULTISET of (renamed tuple, value)
+                                               entries, arbitrary metric), rename_lookup, rename_index_sorted +
+                                               rename_determined (LIST form: the new table is the one arrangement of those
+                                               entries whose index is sorted by the NEW labels), rename_monotone_eq
+                                               (order-preserving relabelling ⇒ literally the mapped list)       | FULL for
+                                               relabellings injective on ALL labels — PARTIAL w.r.t. "bijection of the
+                                               observed labels": the (true) extension of a bijection between finite label
+                                               sets to an injection of all strings is not formalised; the generators are:
+                                               Perm.swapLevels_injective, Perm.injective_of_involutive,
+                                               Perm.injective_of_strictMono, `Function.Injective.comp`
+   C2 necessity                               | non_injective_rename_merges (two labels mapped to one: the groups merge,
+                                               the entry count drops), rename_needs_wf (rows of the wrong width: `getD`
+                                               default of `Frame.col`)                                           | FULL
+   C3 aggregates, named metrics               | frame_rename, aggregate_rename, fairness_rename                      | FULL
+   C4 moments, ThresholdOptimizer             | —                             | CORRESPONDENCE-ONLY (mom/relabel, to/relabel)
 -/
 import FairModel.Lemmas.Perm
 import FairModel.Lemmas.PermAggregate
 import FairModel.Lemmas.PermRename
 import FairModel.Lemmas.PermMoments
 import FairModel.Lemmas.Container
+import FairModel.Lemmas.C12Review
 
 namespace C12
 open Frame MetricPool Aggregate Perm
@@ -62,6 +130,12 @@ theorem levels_perm (ncf nsf : Nat) {rows rows' : List (Row α)} (hp : rows.Perm
 theorem slice_perm (k : Key) {rows rows' : List (Row α)} (hp : rows.Perm rows') :
     (slice (rowsOf Row.key k rows)).Perm (slice (rowsOf Row.key k rows')) :=
   Frame.slice_perm (rowsOf_perm Row.key k hp)
+
+/-- (review) the theorems above need no shape hypothesis, but the MODEL is faithful only on rows of the declared
+    width (MetricFrame rejects anything else; `Frame.col` would read `""` for a missing value): permuting keeps the
+    rows inside that domain -/
+theorem wf_perm (ncf nsf : Nat) {rows rows' : List (Row α)} (hp : rows.Perm rows') (h : WF ncf nsf rows) :
+    WF ncf nsf rows' := Frame.wf_perm hp h
 
 /-- the hypothesis of `byGroup_perm` holds for every metric of the pool: count, selection rate, the four
     confusion-matrix rates, mean prediction, accuracy, mean error, zero-one / absolute / squared error and the
@@ -251,6 +325,40 @@ theorem fairness_rename (nsf : Nat) (σs : Nat → Level → Level) (hinj : ∀ 
     fun mt m => congrArg scalarOf (aggregate_rename 0 nsf (eval mt) σs hinj (fun j hj => absurd hj (by omega)) rows hwf m .coerce).2.2.2
   simp only [allFair, dpDifference, dpRatio, eoppDifference, eoppRatio, eoddsDifference, eoddsRatio, hd, hr]
 
+/-! #### (review) the ORDER of the relabelled index -/
+
+/-- the index of the relabelled table is strictly sorted — by the NEW labels -/
+theorem rename_index_sorted (nanv : β) (ncf nsf : Nat) (f : List α → β) (σs : Nat → Level → Level)
+    (rows : List (Row α)) :
+    ((byGroup nanv ncf nsf f (rows.map (renCols σs))).map (·.1)).Pairwise (· < ·) :=
+  applyFunctions_index_sorted nanv Row.key _ f _
+
+/-- LIST form of `rename_equivariant`: the table of the relabelled rows is THE arrangement of the renamed old entries
+    whose index is strictly sorted (there is exactly one). -/
+theorem rename_determined (nanv : β) (ncf nsf : Nat) (f : List α → β) (σs : Nat → Level → Level)
+    (hinj : ∀ j, Function.Injective (σs j)) (rows : List (Row α)) (hwf : WF ncf nsf rows) (l : List (Key × β))
+    (hl : l.Perm ((byGroup nanv ncf nsf f rows).map (fun e => (mapCols σs e.1, e.2))))
+    (hs : (l.map (·.1)).Pairwise (· < ·)) :
+    byGroup nanv ncf nsf f (rows.map (renCols σs)) = l :=
+  eq_of_perm_of_sorted ((rename_equivariant nanv ncf nsf f σs hinj rows hwf).1.trans hl.symm)
+    (rename_index_sorted nanv ncf nsf f σs rows) hs
+
+/-- an ORDER-PRESERVING relabelling (every column strictly increasing) renames the index entries in place: the new
+    table is literally the old list with renamed tuples.  (For a relabelling that is not order preserving this list
+    equality is false — see the `exSwap` example below — and `rename_equivariant` / `rename_determined` are the
+    statement.) -/
+theorem rename_monotone_eq (nanv : β) (ncf nsf : Nat) (f : List α → β) (σs : Nat → Level → Level)
+    (hmono : ∀ j a b, a < b → σs j a < σs j b) (rows : List (Row α)) (hwf : WF ncf nsf rows) :
+    byGroup nanv ncf nsf f (rows.map (renCols σs)) =
+      (byGroup nanv ncf nsf f rows).map (fun e => (mapCols σs e.1, e.2)) := by
+  apply rename_determined nanv ncf nsf f σs (fun j => injective_of_strictMono _ (hmono j)) rows hwf _ (List.Perm.refl _)
+  have hs := applyFunctions_index_sorted nanv Row.key (ncf + nsf) f rows
+  have : ((byGroup nanv ncf nsf f rows).map (fun e => (mapCols σs e.1, e.2))).map (·.1) =
+      ((byGroup nanv ncf nsf f rows).map (·.1)).map (mapCols σs) := by
+    simp [List.map_map, Function.comp_def]
+  rw [this]
+  exact List.Pairwise.map _ (fun a b h => mapCols_lt σs hmono h) hs
+
 /-! ### Non-vacuity -/
 
 def exRows : List (Row Dat) :=
@@ -263,7 +371,10 @@ def exRows' : List (Row Dat) :=
    ⟨⟨1, 0, 3, 0⟩, ["m"], ["a"]⟩, ⟨⟨0, 1, 1, 0⟩, ["k"], ["a"]⟩]
 
 example : exRows.Perm exRows' := by decide +kernel
+/-- (review) … a genuinely non-identity permutation of 5 rows in 2 × 2 groups, weights not all equal -/
+example : exRows ≠ exRows' := by decide +kernel
 example : WF 1 1 exRows := by decide
+example : WF 1 1 exRows' := wf_perm 1 1 (by decide +kernel : exRows.Perm exRows') (by decide)
 example : byGroup Cell.nan 1 1 (eval .selrate) exRows =
     [(["k", "a"], .ofRat 1), (["k", "b"], .ofRat (2/3)), (["m", "a"], .ofRat 0), (["m", "b"], .ofRat 1)] := by
   decide +kernel
@@ -275,7 +386,19 @@ example : byGroup Cell.nan 1 1 (eval .selrate) exRows' = byGroup Cell.nan 1 1 (e
 example : byGroup (0 : Rat) 1 1 (fun l => (l.map (·.p0)).headD 0) exRows ≠
     byGroup (0 : Rat) 1 1 (fun l => (l.map (·.p0)).headD 0) exRows' := by decide +kernel
 
-/-- relabelling a ↦ z, b ↦ c in the sensitive column, control labels kept: the index order changes -/
+/-- (review) all hypotheses of `aggregate_perm` at once on the permuted example; two strata, non-trivial values -/
+example : difference .between .coerce (ofFrame 1 1 (eval .selrate) exRows') = some [(["k"], .fin (1/3)), (["m"], .fin 1)] ∧
+    groupMin .coerce (ofFrame 1 1 (eval .selrate) exRows') = some [(["k"], .fin (2/3)), (["m"], .fin 0)] := by
+  decide +kernel
+example : difference .between .coerce (ofFrame 1 1 (eval .selrate) exRows) =
+    difference .between .coerce (ofFrame 1 1 (eval .selrate) exRows') :=
+  (aggregate_perm 1 1 (eval .selrate) (pool_permInv .selrate) (by decide +kernel : exRows.Perm exRows')
+    .between .coerce).2.2.1
+
+/-- relabelling a ↦ z, b ↦ c in the sensitive column, control labels kept: the index order changes.
+    (review) CAUTION: `exSigma 1` is a bijection of the OBSERVED labels {a, b} onto {z, c} but NOT injective on all
+    labels (`a` and `z` both go to `z`), so it does not meet the hypothesis `hinj` of the theorems of section (4);
+    `exSwap` below does. -/
 def exSigma : Nat → Level → Level := fun j s => if j = 0 then s else if s = "a" then "z" else if s = "b" then "c" else s
 
 example : byGroup Cell.nan 1 1 (eval .selrate) (exRows.map (renCols exSigma)) =
@@ -283,6 +406,70 @@ example : byGroup Cell.nan 1 1 (eval .selrate) (exRows.map (renCols exSigma)) =
   decide +kernel
 example : difference .between .coerce (ofFrame 1 1 (eval .selrate) (exRows.map (renCols exSigma))) =
     some [(["k"], .fin (1/3)), (["m"], .fin 1)] := by decide +kernel
+example : ¬ Function.Injective (exSigma 1) :=
+  fun h => absurd (h (by decide +kernel : exSigma 1 "a" = exSigma 1 "z")) (by decide +kernel)
+
+/-- (review) a relabelling that IS injective on all labels: exchange a ↔ z in the sensitive column (so that the
+    order of the groups a < b becomes b < z), control labels kept -/
+def exSwap : Nat → Level → Level := fun j => if j = 0 then id else swapLevels "a" "z"
+
+theorem exSwap_injective : ∀ j, Function.Injective (exSwap j) := by
+  intro j
+  unfold exSwap
+  split
+  · exact Function.injective_id
+  · exact swapLevels_injective _ _
+
+theorem exSwap_keeps_control : ∀ j, j < 1 → exSwap j = id := by
+  intro j hj
+  have : j = 0 := by omega
+  subst this
+  rfl
+
+/-- all hypotheses of `rename_equivariant` / `frame_rename` / `aggregate_rename` at once (injective, control labels
+    kept, well-formed rows; 2 strata × 2 groups), and the interesting branch: the index ORDER changes -/
+example : (byGroup Cell.nan 1 1 (eval .selrate) (exRows.map (renCols exSwap))).Perm
+    ((byGroup Cell.nan 1 1 (eval .selrate) exRows).map (fun e => (mapCols exSwap e.1, e.2))) :=
+  (rename_equivariant Cell.nan 1 1 (eval .selrate) exSwap exSwap_injective exRows (by decide)).1
+example : byGroup Cell.nan 1 1 (eval .selrate) (exRows.map (renCols exSwap)) =
+    [(["k", "b"], .ofRat (2/3)), (["k", "z"], .ofRat 1), (["m", "b"], .ofRat 1), (["m", "z"], .ofRat 0)] := by
+  decide +kernel
+/-- … so the list equality of `rename_monotone_eq` is FALSE for a relabelling that is not order preserving -/
+example : byGroup Cell.nan 1 1 (eval .selrate) (exRows.map (renCols exSwap)) ≠
+    (byGroup Cell.nan 1 1 (eval .selrate) exRows).map (fun e => (mapCols exSwap e.1, e.2)) := by decide +kernel
+example : difference .between .coerce (ofFrame 1 1 (eval .selrate) (exRows.map (renCols exSwap))) =
+    difference .between .coerce (ofFrame 1 1 (eval .selrate) exRows) :=
+  (aggregate_rename 1 1 (eval .selrate) exSwap exSwap_injective exSwap_keeps_control exRows (by decide)
+    .between .coerce).2.2.1
+
+/-- NECESSITY of injectivity: map both sensitive labels to "z" — the two groups of every stratum MERGE (4 entries
+    become 2, with the pooled rates), so the result is not a renaming of the old entries -/
+def exMerge : Nat → Level → Level := fun j s => if j = 0 then s else "z"
+
+theorem non_injective_rename_merges :
+    byGroup Cell.nan 1 1 (eval .selrate) (exRows.map (renCols exMerge)) =
+      [(["k", "z"], .ofRat (3/4)), (["m", "z"], .ofRat (1/4))] ∧
+    ¬ (byGroup Cell.nan 1 1 (eval .selrate) (exRows.map (renCols exMerge))).Perm
+        ((byGroup Cell.nan 1 1 (eval .selrate) exRows).map (fun e => (mapCols exMerge e.1, e.2))) := by
+  refine ⟨by decide +kernel, fun h => ?_⟩
+  have := h.length_eq
+  revert this
+  decide +kernel
+
+/-- NECESSITY of `WF`: a row without feature values in a frame declared with two sensitive columns — `Frame.col` reads
+    the default "" for the missing values, and relabelling "" then changes the index on one side only.  (Real
+    MetricFrame never gets there: it raises on feature arrays of the wrong shape.) -/
+theorem rename_needs_wf :
+    ¬ (byGroup (0 : Rat) 0 2 (fun l => (l.length : Rat))
+          (([⟨(), [], []⟩] : List (Row Unit)).map (renCols (fun _ => swapLevels "" "q")))).Perm
+      ((byGroup (0 : Rat) 0 2 (fun l => (l.length : Rat)) ([⟨(), [], []⟩] : List (Row Unit))).map
+        (fun e => (mapCols (fun _ => swapLevels "" "q") e.1, e.2))) := by decide +kernel
+
+/-- an order-preserving relabelling (prefix every label with "g"): hypothesis of `rename_monotone_eq` … -/
+example : byGroup Cell.nan 1 1 (eval .selrate) (exRows.map (renCols (fun _ s => "g" ++ s))) =
+    [(["gk", "ga"], .ofRat 1), (["gk", "gb"], .ofRat (2/3)), (["gm", "ga"], .ofRat 0), (["gm", "gb"], .ofRat 1)] := by
+  decide +kernel
+
 /-- a bijection on the group labels of `exFair` that reverses their order -/
 def exSigma' : Nat → Level → Level := fun _ s => if s = "a" then "z" else if s = "c" then "A" else s
 
@@ -299,6 +486,10 @@ example : allFair 1 exFair =
      some (.fin (5/12)), some (.fin (7/12)), some (.fin (2/7)), some (.fin (7/10)), some (.fin (3/5)), some (.fin 0),
      some (.fin (31/70)), some (.fin (7/20))] := by decide +kernel
 example : allFair 1 (exFair.reverse.map (renCols exSigma')) = allFair 1 exFair := by decide +kernel
+/-- (review) `exSigma'` is again only a bijection of the observed labels; with an injective one the hypotheses of
+    `fairness_rename` hold jointly (three groups, weighted rows, all 16 values finite and distinct from 0/1 mostly) -/
+example : allFair 1 (exFair.map (renCols (fun _ => swapLevels "a" "z"))) = allFair 1 exFair :=
+  fairness_rename 1 _ (fun _ => swapLevels_injective _ _) exFair (by decide)
 
 def exMom : List Moments.Row := [⟨1, "a", none⟩, ⟨0, "b", none⟩, ⟨1, "b", none⟩, ⟨0, "a", none⟩]
 def exMom' : List Moments.Row := [⟨0, "a", none⟩, ⟨1, "b", none⟩, ⟨1, "a", none⟩, ⟨0, "b", none⟩]
@@ -308,6 +499,26 @@ example : Moments.gamma (Moments.eventOf .eo) exMom 1 Moments.defaultUtil [1, 0,
     Moments.gamma (Moments.eventOf .eo) exMom' 1 Moments.defaultUtil [1, 1/2, 1, 0] := by decide +kernel
 example : Moments.gamma (Moments.eventOf .eo) exMom 1 Moments.defaultUtil [1, 0, 1/2, 1] =
     [1/2, -1/2, 1/4, -1/4, -1/2, 1/2, -1/4, 1/4] := by decide +kernel
+
+/-- (review) hypotheses of `moment_gamma_perm` jointly: equal lengths, joint permutation, 2 groups × 2 events -/
+example : exMom.length = ([1, 0, 1/2, 1] : List Rat).length ∧ exMom'.length = ([1, 1/2, 1, 0] : List Rat).length ∧
+    exMom ≠ exMom' := by decide +kernel
+/-- `moment_signedWeights_perm`: the weights are not constant, and each travels with its row -/
+example : Moments.signedWeights (Moments.eventOf .eo) exMom 1 Moments.defaultUtil [1, 0, 2, 0, 0, 1, 0, 0] = [-4, 4, 4, -4] ∧
+    Moments.signedWeights (Moments.eventOf .eo) exMom' 1 Moments.defaultUtil [1, 0, 2, 0, 0, 1, 0, 0] = [-4, 4, -4, 4] := by
+  decide +kernel
+example : (exMom.zip (Moments.signedWeights (Moments.eventOf .eo) exMom 1 Moments.defaultUtil [1, 0, 2, 0, 0, 1, 0, 0])).Perm
+    (exMom'.zip (Moments.signedWeights (Moments.eventOf .eo) exMom' 1 Moments.defaultUtil [1, 0, 2, 0, 0, 1, 0, 0])) :=
+  (moment_signedWeights_perm _ 1 _ _ (by decide +kernel : exMom.Perm exMom')).2
+/-- `errorRate_gamma_perm` (costs fp = 1, fn = 2; a fractional prediction) and `bgl_gamma_perm` (square loss, 2 groups) -/
+example : (([1, 0, 1, 0] : List Rat).zip [1, 1, 0, 1/2]).Perm (([0, 1, 0, 1] : List Rat).zip [1, 1, 1/2, 0]) ∧
+    Moments.errGamma 1 2 [1, 0, 1, 0] [1, 1, 0, 1/2] = 7/8 ∧ Moments.errGamma 1 2 [0, 1, 0, 1] [1, 1, 1/2, 0] = 7/8 := by
+  decide +kernel
+example : (([⟨1, "a"⟩, ⟨0, "b"⟩, ⟨1/2, "a"⟩] : List Moments.LRow).zip ([1, 1/2, 0] : List Rat)).Perm
+      (([⟨1/2, "a"⟩, ⟨1, "a"⟩, ⟨0, "b"⟩] : List Moments.LRow).zip ([0, 1, 1/2] : List Rat)) ∧
+    Moments.bglGamma (.square 0 1) [⟨1, "a"⟩, ⟨0, "b"⟩, ⟨1/2, "a"⟩] [1, 1/2, 0] = [1/8, 1/4] ∧
+    Moments.bglGamma (.square 0 1) [⟨1/2, "a"⟩, ⟨1, "a"⟩, ⟨0, "b"⟩] [0, 1, 1/2] = [1/8, 1/4] := by
+  decide +kernel
 
 /-! ### (5) containers and index labels -/
 
